@@ -213,7 +213,7 @@ def layout_stage(prop, tier, name):
     res["samples"] = [recs[len(recs) // 3], recs[2 * len(recs) // 3]]
     res["detail"]["table_rows"] = len(cases)
     REL = {"C05": {"size", "frees", "layout", "alloc", "align", "panicked", "contents"},
-           "C11": {"addr", "heap", "bits", "width", "panicked", "thin", "count"},
+           "C11": {"addr", "heap", "bits", "width", "panicked", "thin", "count", "contents", "layout", "frees"},
            "C12": {"union", "size", "layout", "frees", "panicked", "addr", "heap", "width"},
            "C01": {"frees", "layout", "count", "panicked", "contents", "heap"},
            "C06": {"contents", "panicked", "frees"},
@@ -229,7 +229,8 @@ def layout_stage(prop, tier, name):
             continue
         if prop == "C10" and not (x["family"] == "hs" and x.get("ctor", "").startswith(("thin", "fat_into"))):
             continue
-        if prop == "C11" and cat == "panicked" and not any(s in x.get("path", "") for s in ("raw", "offset", "refcnt", "dyn", "borrow", "swap")):
+        # C11: what a pointer round trip recovers (same contents, same block released once with its layout)
+        if prop == "C11" and cat in ("panicked", "contents", "layout", "frees") and not any(s in x.get("path", "") for s in ("raw", "offset", "refcnt", "dyn", "borrow", "swap")):
             continue
         k2 = (cat, key)
         if k2 in seen:
